@@ -328,6 +328,26 @@ def _interp_repr(d):
     return out
 
 
+def _to_objective(case, y, g, p):
+    """Expected objective of a randomised rule with P(1) = p on the training rows (first principles)."""
+    def obj(rows):
+        yy, pp = y[rows], p[rows]
+        tpr = pp[yy == 1].mean() if (yy == 1).any() else 0.0
+        tnr = (1 - pp[yy == 0]).mean() if (yy == 0).any() else 0.0
+        if case["objective"] == "accuracy_score":
+            return float(np.where(yy == 1, pp, 1 - pp).mean())
+        return 0.5 * (tpr + tnr)
+
+    n = len(y)
+    if case["constraint"] == "equalized_odds":
+        return obj(np.arange(n))
+    tot = 0.0
+    for lab in sorted(set(g)):
+        rows = np.array([i for i in range(n) if g[i] == lab])
+        tot += len(rows) / n * obj(rows)
+    return tot
+
+
 def check_threshold_optimizer(case):
     from fairlearn.postprocessing import ThresholdOptimizer
 
@@ -355,15 +375,22 @@ def check_threshold_optimizer(case):
     yb = got.predict(Xg, sensitive_features=gen.wrap_vector(case["kinds"][1], g, case["plans"][3], name="s"), random_state=case["seed"])
     if not np.array_equal(np.asarray(ya), np.asarray(yb)):
         raise PropertyViolation("ThresholdOptimizer: predict with a fixed seed differs between containers and plain ndarrays")
-    # group-label bijection renames keys
+    # group-label bijection: the set of rule keys is renamed and the fitted rule is equally good.  (The rules
+    # themselves may differ legitimately: renaming changes the order in which groups are summed, and grid
+    # points with equal objective are then tie-broken differently.)
     new_g, mapping = _bijection(g, case["shift"])
     to2 = ThresholdOptimizer(estimator=ScoreColumn(), constraints=case["constraint"], objective=case["objective"],
                              prefit=case["prefit"], predict_method="predict", grid_size=case["grid_size"], flip=case["flip"])
     to2.fit(Xr, np.asarray(y), sensitive_features=np.asarray(new_g))
     c = _interp_repr(to2.interpolated_thresholder_.interpolation_dict)
     smap = {str(v): str(mapping[M.norm(v)]) for v in M.observed_levels(g)}
-    if {smap[k]: v for k, v in a.items()} != c:
-        raise PropertyViolation(f"ThresholdOptimizer: renaming group labels changes the fitted rules: {c} vs {a} under {smap}")
+    if {smap[k] for k in a} != set(c):
+        raise PropertyViolation(f"ThresholdOptimizer: renaming group labels does not simply rename the rule keys: {sorted(c)} vs {sorted(smap[k] for k in a)}")
+    pc = to2._pmf_predict(Xr, sensitive_features=np.asarray(new_g))
+    oa = _to_objective(case, np.asarray(y), [str(v) for v in g], pa[:, 1])
+    oc = _to_objective(case, np.asarray(y), [str(v) for v in new_g], pc[:, 1])
+    if abs(oa - oc) > 1e-9:
+        raise PropertyViolation(f"ThresholdOptimizer: renaming group labels changes the attained objective {oa!r} -> {oc!r}")
     tags = ["constraint:" + case["constraint"]]
     nd = any(k in PANDAS and p != "default" for k, p in zip(case["kinds"], case["plans"]))
     if nd:
